@@ -42,6 +42,10 @@ type afmReaderModel struct {
 	// has not been filled yet)
 	emptyState bool
 	cellTypes  map[string]string
+	// symNums: number texts that the conversion functions of strconv turn into the symbol
+	// num(<text>) instead of a value (provided the library accepts the text): what the reader
+	// does with the number then shows in the result, and a branch on it stops the evaluation
+	symNums map[string]bool
 }
 
 // afmLineResult: the outcome of one iteration.
@@ -185,6 +189,14 @@ func (m *afmReaderModel) run(mode *afmMode, line string) afmLineResult {
 			}
 		}
 		n := callName(call)
+		if m.symNums != nil && len(args) >= 1 && args[0].k == svString && m.symNums[args[0].s] {
+			switch n {
+			case "strconv.ParseFloat", "strconv.Atoi", "strconv.ParseInt", "strconv.ParseUint":
+				if r, ok := stdCall(ev, call, args); ok && r.k == svTuple && len(r.tup) == 2 && r.tup[1].k == svNil {
+					return sv{k: svTuple, tup: []sv{symV("num(" + args[0].s + ")"), {k: svNil}}}, true
+				}
+			}
+		}
 		switch n {
 		case "bufio.NewScanner":
 			return symV("scanner"), true
@@ -663,6 +675,9 @@ func (c *Ctx) afmWriterFuncs(root *ssa.Function) []*ssa.Function {
 				for _, cl := range closuresOf(x.Common().Value) {
 					walk(cl)
 				}
+				for _, g := range c.funcsOfGlobalG(x.Common().Value) {
+					walk(g)
+				}
 			case *ssa.MakeClosure:
 				walk(x.Fn.(*ssa.Function))
 			}
@@ -992,7 +1007,8 @@ type afmSampleValue struct {
 // afmSamples instantiates the format of an event with representative operand values: numbers
 // that the verb prints without loss (an integer for %.0f and %d, a fraction for verbs and
 // conversions that print fractions), a word (variant 1: several words where the field is free
-// text), true (variant 1: false).  ok=false if an operand is of a kind the table has no
+// text), true (variant 1: false); numbers are negative in variant 0, positive in variant 1 and
+// zero in variant 2.  ok=false if an operand is of a kind the table has no
 // representative for.
 func afmSamples(e afmEvent, variant int) (line string, vals []afmSampleValue, ok bool) {
 	verbs := afmVerbRe.FindAllString(e.format, -1)
@@ -1003,7 +1019,14 @@ func afmSamples(e afmEvent, variant int) (line string, vals []afmSampleValue, ok
 	var goArgs []any
 	for i, a := range e.args {
 		verb := verbs[i]
-		num := float64(-12 - i)
+		// the sign of a number is a cell of the table: negative (variant 0), positive (1), zero (2)
+		num, half := float64(-12-i), -0.5
+		switch variant {
+		case 1:
+			num, half = float64(12+i), 0.5
+		case 2:
+			num, half = 0, 0
+		}
 		var sval afmSampleValue
 		bt, _ := a.typ.Underlying().(*types.Basic)
 		switch {
@@ -1011,7 +1034,7 @@ func afmSamples(e afmEvent, variant int) (line string, vals []afmSampleValue, ok
 			return "", nil, false
 		case bt.Info()&types.IsFloat != 0:
 			if !(strings.HasSuffix(verb, ".0f") || strings.HasSuffix(verb, ".0F")) {
-				num -= 0.5
+				num += half
 			}
 			sval = afmSampleValue{num, sv{k: svFloat, f: num}}
 		case bt.Info()&types.IsInteger != 0:
@@ -1040,7 +1063,7 @@ func afmSamples(e afmEvent, variant int) (line string, vals []afmSampleValue, ok
 						bits = int(k)
 					}
 				}
-				num -= 0.5
+				num += half
 				sval = afmSampleValue{strconv.FormatFloat(num, f, prec, bits), sv{k: svFloat, f: num}}
 			case a.call != nil && (callName(a.call) == "strconv.Itoa" || callName(a.call) == "strconv.FormatInt"):
 				sval = afmSampleValue{strconv.Itoa(int(num)), intV(int64(num))}
@@ -1232,4 +1255,51 @@ func afmLayoutVariants(line string, glyph bool, freeText ...bool) []string {
 func isNumeric(t types.Type) bool {
 	b, ok := t.Underlying().(*types.Basic)
 	return ok && b.Info()&types.IsNumeric != 0
+}
+
+// afmNumberTokens: the white-space separated tokens of a line that are numbers (`;` is a
+// separator too), except those that follow one of the given keys.
+func afmNumberTokens(line string, notAfter ...string) map[string]bool {
+	out := map[string]bool{}
+	toks := strings.Fields(strings.ReplaceAll(line, ";", " ; "))
+	for i, t := range toks {
+		if _, err := strconv.ParseFloat(t, 64); err != nil {
+			continue
+		}
+		skip := false
+		for _, k := range notAfter {
+			if i > 0 && toks[i-1] == k {
+				skip = true
+			}
+		}
+		if !skip {
+			out[t] = true
+		}
+	}
+	return out
+}
+
+var afmNumSymRe = regexp.MustCompile(`^(?:[iu](?:8|16|32)\()*num\(([^()]*)\)\)*$`)
+
+// afmIsNumberOf: got is the number a token of the line denotes, as it stands (through
+// conversions to the field's type at most), and that number is want.
+func afmIsNumberOf(got, want sv) bool {
+	if got.k != svSym {
+		return false
+	}
+	mm := afmNumSymRe.FindStringSubmatch(got.s)
+	if mm == nil {
+		return false
+	}
+	f, err := strconv.ParseFloat(mm[1], 64)
+	if err != nil {
+		return false
+	}
+	switch want.k {
+	case svInt:
+		return f == float64(want.i)
+	case svFloat:
+		return f == want.f
+	}
+	return false
 }
